@@ -22,6 +22,28 @@ Two families of programs (skeletons with declaration slots):
          declaration at block or file scope.  Probes in the condition, the body, the else branch / for increment and after
          the statement.
 
+ point   POINT OF DECLARATION (C11 6.2.1p7: a tag is in scope right after the tag appears in the type specifier that declares
+         it; an enumerator right after its defining enumerator - its own value expression still sees the enclosing
+         declaration; any other identifier right after the completion of its declarator - an array bound inside the
+         declarator sees the enclosing declaration, the initializer already sees the new object).  The chain skeleton with
+         SELF-REFERENTIAL declaration kinds, i.e. probes INSIDE the declaration, at every level of the chain:
+           objb      char x[REF + 1];                          REF (in the declarator) = enclosing x
+           obji      char x[60 + L] = { sizeof(x) };           the initializer sees the new object (file scope: static)
+           sobji     static char x[70 + L] = { sizeof(x) };    the same for a block-scope object of static storage duration
+           objbi     char x[REF + 1] = { sizeof(x) };          both in one declarator (block, for-init)
+           typedefb  typedef char x[REF + 1];
+           enumrv    enum { x = REF + 1 };                     also as parameter `enum { x = REF + 1 } e`
+           enumr3    enum { a = REF + 1, x = REF + 2, b = x + 3 };   earlier enumerator / own value: enclosing x; later one: new x
+           pself     parameter char (*x)[REF + 1]              a parameter's own declarator sees the enclosing x
+           pnext     parameters short x, char (*r)[sizeof(x) + 1]   a later parameter sees the earlier one
+           structm / unionm   struct x { struct x *n; char c[..]; }   the member declaration sees the NEW (incomplete) type
+         REF is sizeof(x), sizeof(*x) or x according to what the enclosing declaration is.  Every declaration carries an
+         observable that depends on what its inside references bound to (sizeof x, x[0], the enumerator values, sizeof *r,
+         sizeof *q->n, _Generic(q->n, struct x *)); it is read at every probe site where x denotes that declaration.
+         In the stmt family the same kinds appear in type names of controlling expressions / non-compound bodies
+         (`sizeof(enum { x = x + 1 })`, `sizeof(struct x { struct x *n; .. })`) and, for function prototype scope,
+         tnext = `short x, __typeof__(x) *r` observed through _Generic on the function (pointer) type.
+
 Observables of the binding of the tag x at a probe site (4 slots per site: ordinary, tag-size, tag-identity, tag-object):
  tag-size      sizeof(K x) (+ 1000 * sizeof(*q) for the pointer q declared next to the binding's own declaration) - only
                where the model says the type is complete at that point of the text
@@ -39,7 +61,23 @@ NS = NSLOT * MAXSITES
 SLOT_NAMES = ["ordinary", "tag", "tag-identity", "tag-object"]
 COPIED = 77
 
-BASE = {"struct": "struct", "union": "union", "enum": "enum", "sfwd": "struct", "ufwd": "union", "sfwdc": "struct", "ufwdc": "union"}
+BASE = {"struct": "struct", "union": "union", "enum": "enum", "sfwd": "struct", "ufwd": "union", "sfwdc": "struct", "ufwdc": "union",
+        "structm": "struct", "unionm": "union"}
+# self-referential declaration kinds (point of declaration, 6.2.1p7)
+SELF_ORD = ("objb", "obji", "sobji", "objbi", "typedefb", "enumrv", "enumr3", "pself", "pnext", "tnext")
+SELF_TAG = ("structm", "unionm")
+NEEDS_OUTER = ("objb", "objbi", "typedefb", "enumrv", "enumr3", "pself")        # kinds with a reference to the ENCLOSING x
+SEES_SELF = {"obji": "initializer", "sobji": "initializer", "objbi": "initializer", "enumr3": "later-enumerator", "pnext": "later-parameter",
+             "tnext": "later-parameter"}                                        # kinds with a reference to the NEW x
+OUT_REF = {"objb": "array-bound", "objbi": "array-bound", "typedefb": "array-bound", "enumrv": "value-expression",
+           "enumr3": "value-expression", "pself": "array-bound"}
+CAT = {"obj": "obj", "typedef": "typedef", "enumr": "enumr", "objb": "obj", "obji": "obj", "sobji": "obj", "objbi": "obj", "typedefb": "typedef",
+       "enumrv": "enumr", "enumr3": "enumr", "pself": "ptr", "pnext": "obj", "tnext": "obj"}
+REF = {"obj": "sizeof(%s)", "typedef": "sizeof(%s)", "enumr": "%s", "ptr": "sizeof(*%s)"}
+
+
+class Invalid(Exception):
+    pass
 FWD = ("sfwd", "ufwd", "sfwdc", "ufwdc")
 LATE = ("sfwdc", "ufwdc")
 DEFS = ("struct", "union", "enum")
@@ -54,7 +92,29 @@ def value(level, kind):
     if kind == "struct": return 40 + level
     if kind == "union": return 50 + level
     if kind == "enum": return 4
+    if kind == "structm": return 88 + 8 * level        # struct x { struct x *n; char c[8 * (10 + level)]; }
+    if kind == "unionm": return 160 + 8 * level        # union x { union x *n; char c[8 * (20 + level)]; }
     raise ValueError(kind)
+
+
+def selfnum(kind, level, outnum):
+    """what a reference to the NEW declaration yields (sizeof / value); outnum = what a reference to the enclosing x yields"""
+    if kind in ("objb", "objbi", "typedefb", "pself", "enumrv"): return outnum + 1
+    if kind == "obji": return 60 + level
+    if kind == "sobji": return 70 + level
+    if kind == "enumr3": return outnum + 2
+    if kind in ("pnext", "tnext"): return 2
+    return value(level, kind)
+
+
+def obsval(kind, level, outnum, innum):
+    """the observable of a declaration; outnum / innum = what the references before / after its point of declaration yield"""
+    n = selfnum(kind, level, outnum)
+    if kind in ("obji", "sobji", "objbi"): return n + 1000 * innum
+    if kind == "enumr3": return n + 1000 * (outnum + 1) + 1000000 * (innum + 3)
+    if kind == "pnext": return n + 1000 * (innum + 1)
+    if kind == "tnext": return innum
+    return n
 
 
 class D:
@@ -63,11 +123,76 @@ class D:
         self.level, self.kind = level, kind
         self.base = BASE.get(kind, kind)
         self.complete = kind not in FWD
-        self.size = value(level, self.base) if self.complete and kind in BASE else None
+        self.size = value(level, kind if kind in SELF_TAG else self.base) if self.complete and kind in BASE else None
         self.q = None           # level of the pointer object declared next to it
+        self.selfref = kind in SELF_TAG
 
     def name(self):
         return "L%s.%s" % (self.level, self.kind)
+
+    # ordinary identifiers: out = the declaration x denotes just before this one enters scope
+    def setup_ord(self, out):
+        k, l = self.kind, self.level
+        if k in NEEDS_OUTER and out is None:
+            raise Invalid("no enclosing declaration for the reference inside %s" % self.name())
+        self.out = out
+        self.cat = CAT[k]
+        self.outnum = out.num if out and k in NEEDS_OUTER else None
+        self.num = selfnum(k, l, self.outnum)
+        self.val = obsval(k, l, self.outnum, self.num)
+
+    def deviations(self):
+        """observable -> (which inside reference, what it bound to) for the wrong bindings of the inside references that have a
+        predictable effect (naming of signatures only)"""
+        k, l, out, alt = self.kind, self.level, self.out, {}
+        if k in ("enumrv", "enumr3"):           # value expression binds to the enumerator being defined (0, type int)
+            o2 = 0 if out.cat == "enumr" else 4 if out.cat in ("obj", "typedef") else None
+            if o2 is not None and k == "enumrv":
+                alt[o2 + 1] = (OUT_REF[k], "self", "enclosing")
+            elif o2 is not None:            # a = REF + 1 still sees the enclosing x (the enumerator being defined there is a)
+                alt[o2 + 2 + 1000 * (self.outnum + 1) + 1000000 * (o2 + 2 + 3)] = (OUT_REF[k], "self", "enclosing")
+        if k in SEES_SELF and out is not None:  # reference after the point of declaration binds to the enclosing declaration
+            if k == "enumr3": i2 = out.num if out.cat == "enumr" else None
+            elif k == "tnext": i2 = 4 if out.cat == "enumr" else 0
+            else: i2 = out.num if out.cat in ("obj", "typedef") else 4 if out.cat == "enumr" else 8
+            if i2 is not None:
+                alt[obsval(k, l, self.outnum, i2)] = (SEES_SELF[k], "enclosing", "self")
+        return alt
+
+    def ref(self, X):
+        return REF[self.cat] % X
+
+    def obs(self, X, i):
+        k, l = self.kind, self.level
+        if k in ("obji", "sobji", "objbi"): return "sizeof(%s) + 1000 * %s[0]" % (X, X)
+        if k == "enumr3": return "%s + 1000 * a%d_%d + 1000000 * b%d_%d" % (X, l, i, l, i)
+        if k == "pnext": return "sizeof(%s) + 1000 * sizeof(*r%d)" % (X, i)
+        return self.ref(X)
+
+    def constant(self):
+        return self.kind not in ("obji", "sobji", "objbi")       # x[0] is not a constant expression
+
+    def text(self, X, i, static=""):
+        """the declaration; without the final `;` for parameters and for-init"""
+        k, l = self.kind, self.level
+        R = self.out.ref(X) if k in NEEDS_OUTER else None
+        if l == 1:
+            if k == "obj": return "short %s" % X
+            if k == "pself": return "char (*%s)[%s + 1]" % (X, R)
+            if k == "pnext": return "short %s, char (*r%d)[sizeof(%s) + 1]" % (X, i, X)
+        if k == "obj": s = "%schar %s[%d]" % (static, X, self.num)
+        elif k == "objb": s = "%schar %s[%s + 1]" % (static, X, R)
+        elif k == "obji": s = "%schar %s[%d] = { sizeof(%s) }" % (static, X, self.num, X)
+        elif k == "sobji": s = "static char %s[%d] = { sizeof(%s) }" % (X, self.num, X)
+        elif k == "objbi": s = "%schar %s[%s + 1] = { sizeof(%s) }" % (static, X, R, X)
+        elif k == "typedef": s = "typedef char %s[%d]" % (X, self.num)
+        elif k == "typedefb": s = "typedef char %s[%s + 1]" % (X, R)
+        elif k == "enumr": s = "enum { %s = %d }" % (X, self.num)
+        elif k == "enumrv": s = "enum { %s = %s + 1 }" % (X, R)
+        elif k == "enumr3": s = "enum { a%d_%d = %s + 1, %s = %s + 2, b%d_%d = %s + 3 }" % (l, i, R, X, R, l, i, X)
+        else: raise ValueError(k)
+        if l == 1: return s + " e%d" % i
+        return s if l == 3 else s + ";"
 
 
 class Base:
@@ -103,19 +228,24 @@ class Base:
                         d = D(l, t)
                         scopes[-1]["tag"] = d
                     if d.base != "enum" and l in self.QLEVELS:
-                        scopes[-1]["q"].append((l, d))
+                        scopes[-1]["q"].append((l, d, "q%d_%%d" % l))
+                        if d.selfref:       # the member n declared INSIDE the specifier: 6.2.1p7, it points to the new type
+                            scopes[-1]["q"].append((8 + l, d, "q%d_%%d->n" % l))
                         if d.q is None: d.q = l
                     self.decls[("tag", l)] = d
                 if o:
                     assert scopes[-1]["ord"] is None
-                    scopes[-1]["ord"] = D(l, o)
+                    d = D(l, o)
+                    d.setup_ord(lookup("ord"))          # x still denotes the enclosing declaration here
+                    scopes[-1]["ord"] = d
+                    self.decls[("ord", l)] = d
             elif ev[0] == "complete":
                 d = scopes[-1]["tag"]
                 assert d is not None and d.level == ev[1] and not d.complete
                 d.complete, d.size = True, value(ev[1], d.base)
             elif ev[0] == "probe":
                 o, t = lookup("ord"), lookup("tag")
-                qs = [(l, d is t) for sc in scopes for (l, d) in sc["q"]]
+                qs = [(l, d is t, txt) for sc in scopes for (l, d, txt) in sc["q"]]
                 self.bind[ev[1]] = (o, t, bool(t and t.complete), t.size if t and t.complete else None, qs)
         return self.bind
 
@@ -123,12 +253,12 @@ class Base:
     def expected(self, site, stmt_site):
         o, t, comp, size, qs = self.bind[site]
         out = [UNSET] * NSLOT
-        if o: out[0] = value(o.level, o.kind)
+        if o: out[0] = o.val
         if t:
             if t.base == "enum": out[1] = 4
-            elif comp: out[1] = size + (1000 * size if t.q is not None else 0)
+            elif comp: out[1] = size + (1000 * size if t.q is not None else 0) + (1000000 * size if t.selfref else 0)
             if t.base != "enum" and qs:
-                out[2] = sum(1 << l for l, same in qs if same)
+                out[2] = sum(1 << l for l, same, _ in qs if same)
             if t.base != "enum" and comp and stmt_site:
                 out[3] = COPIED
         return out
@@ -138,17 +268,22 @@ class Base:
         o, t, comp, size, qs = self.bind[site]
         ex, st = [], ""
         if o:
-            ex.append((0, "sizeof(%s)" % X if o.kind in ("obj", "typedef") else X))
+            ex.append((0, self.ordobs(o, X, i)))
         if t:
             K = t.base
             if K == "enum": ex.append((1, "sizeof(enum %s)" % X))
-            elif comp: ex.append((1, "sizeof(%s %s)" % (K, X) + (" + 1000 * sizeof(*q%d_%d)" % (t.q, i) if t.q is not None else "")))
+            elif comp: ex.append((1, "sizeof(%s %s)" % (K, X) + (" + 1000 * sizeof(*q%d_%d)" % (t.q, i) if t.q is not None else "")
+                                  + (" + 1000000 * sizeof(*((%s %s *)0)->n)" % (K, X) if t.selfref else "")))
             if K != "enum" and qs:
-                ex.append((2, " + ".join("_Generic(q%d_%d, %s %s *: %d, default: 0)" % (l, i, K, X, 1 << l) for l, _ in qs)))
+                ex.append((2, " + ".join("_Generic(%s, %s %s *: %d, default: 0)" % (txt % i, K, X, 1 << l) for l, _, txt in qs)))
             if K != "enum" and comp and stmt_site:
-                st = ("{ %s %s a, b; b.c[sizeof b - 1] = %d; a.c[sizeof a - 1] = 1; a = b; FN(out)[%d] = a.c[sizeof a - 1]; }"
-                      % (K, X, COPIED, NSLOT * site + 3))
+                last = "sizeof a.c - 1" if t.selfref else "sizeof a - 1"        # c is the last member: the last byte of the object
+                st = ("{ %s %s a, b; b.c[%s] = %d; a.c[%s] = 1; a = b; FN(out)[%d] = a.c[%s]; }"
+                      % (K, X, last, COPIED, last, NSLOT * site + 3, last))
         return ex, st
+
+    def ordobs(self, o, X, i):
+        return o.obs(X, i)
 
     def pstmt(self, site, X, i):
         ex, st = self.probes(site, X, i, True)
@@ -160,7 +295,16 @@ class Base:
 
     def pconst(self, site, X, i):
         ex = dict(self.probes(site, X, i, False)[0])
+        o = self.bind[site][0]
+        if o and not o.constant(): del ex[0]
         return ", ".join("(long)(%s)" % ex[k] if k in ex else str(UNSET) for k in range(3))
+
+    def pnonconst(self, site, X, i):
+        """statements for the file-scope observables that are not constant expressions (x[0])"""
+        o = self.bind[site][0]
+        if o and not o.constant():
+            return "FN(out)[%d] = (long)(%s);" % (NSLOT * site, o.obs(X, i))
+        return ""
 
     def tagdecl(self, l, X, i, static=""):
         t = self.tag.get(l)
@@ -168,6 +312,7 @@ class Base:
         K = BASE[t]
         if t in FWD: s = "%s %s;" % (K, X)
         elif t == "enum": return "enum %s { e%d_%d = %d };" % (X, l, i, 60 + l)
+        elif t in SELF_TAG: s = "%s;" % self.selftag(l, X)
         else: s = "%s %s { char c[%d]; };" % (K, X, value(l, K))
         if l in self.QLEVELS:
             s += " %s%s %s *q%d_%d;" % (static, K, X, l, i)
@@ -177,12 +322,14 @@ class Base:
         t = self.tag.get(l)
         return "%s %s { char c[%d]; };" % (BASE[t], X, value(l, BASE[t])) if t in LATE else ""
 
-    def orddecl(self, l, X, static=""):
-        o = self.ord.get(l)
-        if o == "obj": return "%schar %s[%d];" % (static, X, value(l, o))
-        if o == "typedef": return "typedef char %s[%d];" % (X, value(l, o))
-        if o == "enumr": return "enum { %s = %d };" % (X, value(l, o))
-        return ""
+    def selftag(self, l, X):
+        t = self.tag[l]
+        K = BASE[t]
+        return "%s %s { %s %s *n; char c[%d]; }" % (K, X, K, X, value(l, t) - 8 if K == "struct" else value(l, t))
+
+    def orddecl(self, l, X, i, static=""):
+        d = self.decls.get(("ord", l))
+        return d.text(X, i, static) if d else ""
 
     def depth(self):
         return sum(1 for v in self.ord.values() if v) + sum(1 for v in self.tag.values() if v)
@@ -219,17 +366,43 @@ class Base:
         """name of an observable (for signatures)"""
         if v == UNSET: return "not-executed"
         if slot == 2:
-            return "+".join("q%d" % l for l in range(8) if v >> l & 1) or "none"
+            return "+".join(("q%d" % l if l < 8 else "q%d.n" % (l - 8)) for l in range(16) if v >> l & 1) or "none"
         if slot == 3:
             return "copied" if v == COPIED else "not-copied"
         def one(x):
+            for (ns, l), d in sorted(self.decls.items()):
+                if ns == "ord" and slot == 0 and d.val == x: return d.name()
+                if ns == "tag" and slot == 1 and d.kind in SELF_TAG and value(l, d.kind) == x: return d.name()
             for l in (0, 1, 2, 3, 4, 5, 6):
                 for k in ("obj", "typedef", "enumr", "struct", "union"):
                     if value(l, k) == x: return "L%d.%s" % (l, k)
             return ("enum-tag" if slot == 1 else "int") if x == 4 else "other"
         if slot == 1 and v >= 1000:
-            return one(v % 1000) if v % 1000 == v // 1000 else "%s*q=%s" % (one(v % 1000), one(v // 1000))
+            a, b, c = v % 1000, v // 1000 % 1000, v // 1000000
+            r = one(a) if a == b else "%s*q=%s" % (one(a), one(b))
+            return r if c in (0, a) else "%s[member n->%s]" % (r, one(c))
         return one(v)
+
+    def point_deviation(self, site, slot, want, got):
+        """signature part when the wrong value is explained by an inside reference (point of declaration) of the declaration
+        that x correctly denotes at the site, else None"""
+        self.walk()
+        if site not in self.bind or got in ("signal",): return None
+        o, t = self.bind[site][0], self.bind[site][1]
+        got = int(got)
+        if slot == 0 and o and o.kind in SELF_ORD:
+            if any(d.val == got for (ns, _), d in self.decls.items() if ns == "ord"):
+                return None                                 # x denotes another declaration at the site: a plain misbinding
+            dv = o.deviations().get(got)
+            what = dv[0] if dv else OUT_REF.get(o.kind, SEES_SELF.get(o.kind))
+            return "%s:%s|binds:%s,want:%s" % (o.kind, what, dv[1] if dv else "other", dv[2] if dv else
+                                                ("self" if o.kind not in NEEDS_OUTER else "enclosing" if o.kind not in SEES_SELF else "enclosing+self"))
+        if slot in (1, 2) and t and t.selfref:
+            if slot == 1 and got % 1000 == t.size and got // 1000000 != t.size:
+                return "%s:member-declaration|binds:not-self,want:self" % t.kind
+            if slot == 2 and (got ^ int(want)) == 1 << (8 + t.level):
+                return "%s:member-declaration|binds:not-self,want:self" % t.kind
+        return None
 
 
 # ------------------------------------------------------------------------------------------------------------------
@@ -294,28 +467,31 @@ class Case(Base):
     def source(self, i):
         X = "x%d" % i
         self.walk()
-        lines = [" ".join(s for s in (self.tagdecl(0, X, i, "static "), self.orddecl(0, X, "static ")) if s)]
+        lines = [" ".join(s for s in (self.tagdecl(0, X, i, "static "), self.orddecl(0, X, i, "static ")) if s)]
         lines.append("static long pf%d[3] = {%s};" % (i, self.pconst(S_FILE, X, i)))
+        nc = self.pnonconst(S_FILE, X, i)
+        if nc: lines.append("static void pfn%d(void) { %s }" % (i, nc))
         lines.append("static void g%d(void);" % i)        # defined after f: probes the file scope after the function's scopes ended
-        pa = "short %s" % X if self.ordt[1] else "short a"
+        pa = self.orddecl(1, X, i) or "short a"
         t1 = self.tagt[1]
-        if t1 in ("struct", "union"): pb = "%s %s { char c[%d]; } *q1_%d" % (t1, X, value(1, t1), i)
+        if t1 in SELF_TAG: pb = "%s *q1_%d" % (self.selftag(1, X), i)
+        elif t1 in ("struct", "union"): pb = "%s %s { char c[%d]; } *q1_%d" % (t1, X, value(1, t1), i)
         elif t1 == "enum": pb = "enum %s { e1_%d = 61 } *p" % (X, i)
         elif t1 in FWD: pb = "%s %s *q1_%d" % (BASE[t1], X, i)
         else: pb = "void *p"
         f = ["void FN(f%d)(%s, %s) {" % (i, pa, pb)]
-        f.append("int k = 0; %s g%d();" % (" ".join("FN(out)[%d] = pf%d[%d];" % (k, i, k) for k in range(3)), i))
+        f.append("int k = 0; %s %sg%d();" % (" ".join("FN(out)[%d] = pf%d[%d];" % (k, i, k) for k in range(3)), "pfn%d(); " % i if nc else "", i))
         if self.label:
             f.append("if (FN(jmp)) goto %s;" % X)
         f.append(self.pstmt(S_ENTRY, X, i))
-        f += [self.tagdecl(2, X, i), self.orddecl(2, X)]
+        f += [self.tagdecl(2, X, i), self.orddecl(2, X, i)]
         f.append(self.pstmt(S_BLOCK, X, i))
         if self.label == "block":
             f.append("%s: ;" % X)
-        init = "char %s[%d]" % (X, value(3, "obj")) if self.ordt[3] else ""
+        init = self.orddecl(3, X, i)
         f.append("for (%s; %s; %s) {" % (init, self.pexpr(S_COND, X, i, "k < 1"), self.pexpr(S_INC, X, i, "k++")))
         f.append(self.pstmt(S_BODY, X, i))
-        f += [self.tagdecl(4, X, i), self.orddecl(4, X)]
+        f += [self.tagdecl(4, X, i), self.orddecl(4, X, i)]
         f.append(self.pstmt(S_INNER, X, i))
         f.append(self.latedecl(4, X))
         f.append(self.pstmt(S_INNER2, X, i))
@@ -329,25 +505,48 @@ class Case(Base):
         lines.append(" ".join(x for x in f if x))
         lines.append(self.latedecl(0, X))
         lines.append("static long pg%d[3] = {%s};" % (i, self.pconst(S_FILE2, X, i)))
-        lines.append("static void g%d(void) { %s %s }" % (i, " ".join("FN(out)[%d] = pg%d[%d];" % (NSLOT * S_FILE2 + k, i, k) for k in range(3)),
-                                                          self.probes(S_FILE2, X, i, True)[1]))
+        lines.append("static void g%d(void) { %s %s %s }" % (i, " ".join("FN(out)[%d] = pg%d[%d];" % (NSLOT * S_FILE2 + k, i, k) for k in range(3)),
+                                                             self.pnonconst(S_FILE2, X, i), self.probes(S_FILE2, X, i, True)[1]))
         return "\n".join(l for l in lines if l) + "\n"
 
     def shrinks(self):
         out = []
         if self.label:
-            out.append(Case(self.ordt, self.tagt, None))
+            out.append(self.__class__(self.ordt, self.tagt, None))
         for l in range(5):
             if self.ordt[l]:
                 o = list(self.ordt); o[l] = None
-                out.append(Case(o, self.tagt, self.label))
+                out.append(self.__class__(o, self.tagt, self.label))
             if self.tagt[l]:
                 t = list(self.tagt); t[l] = None
-                out.append(Case(self.ordt, t, self.label))
+                out.append(self.__class__(self.ordt, t, self.label))
                 if self.tagt[l] in LATE:
                     t = list(self.tagt); t[l] = t[l][:-1]            # keep the declaration, drop the late completion
-                    out.append(Case(self.ordt, t, self.label))
+                    out.append(self.__class__(self.ordt, t, self.label))
         return [c for c in out if c.valid()]
+
+
+# ------------------------------------------------------------------------------------------------------------------
+# point family: the chain skeleton with self-referential declaration kinds (probes inside the declaration)
+# ------------------------------------------------------------------------------------------------------------------
+_BLK = (None, "obj", "typedef", "enumr", "objb", "obji", "sobji", "objbi", "typedefb", "enumrv", "enumr3")
+P_ORD = {0: (None, "obj", "typedef", "enumr", "obji"), 1: (None, "obj", "pself", "pnext", "enumrv", "enumr3"), 2: _BLK,
+         3: (None, "obj", "objb", "obji", "objbi"), 4: _BLK}
+_PT = (None,) + DEFS + SELF_TAG
+P_TAG = {0: _PT, 1: _PT, 2: _PT, 3: (None,), 4: _PT}
+
+
+class PointCase(Case):
+    family = "point"
+
+    def valid(self):
+        if not Case.valid(self): return False
+        if not any(o in SELF_ORD for o in self.ordt) and not any(t in SELF_TAG for t in self.tagt): return False
+        try:
+            self.walk()
+        except Invalid:
+            return False
+        return True
 
 
 # ------------------------------------------------------------------------------------------------------------------
@@ -359,8 +558,9 @@ ST_STMT_SITES = (T_BEFORE, T_AFTER, T_FILE2)
 KW_STMT = ("if", "while", "do", "for", "switch")
 KW_PROTO = ("fnptr", "proto", "fnptr0", "proto0")      # function-pointer declarator / function declaration, at block / file scope
 LC, LB = 5, 6                                           # "levels" of the declarations in the condition (parameter list) and the body
-ST_ORD = {0: (None, "obj", "typedef", "enumr"), 2: (None, "obj", "typedef", "enumr"), LC: (None, "enumr"), LB: (None, "enumr")}
-ST_TAG = {0: (None,) + DEFS, 2: (None,) + DEFS, LC: (None,) + DEFS, LB: (None,) + DEFS}
+ST_ORD = {0: (None, "obj", "typedef", "enumr"), 2: (None, "obj", "typedef", "enumr"), LC: (None, "enumr", "enumrv", "enumr3", "tnext"),
+          LB: (None, "enumr", "enumrv", "enumr3")}
+ST_TAG = {0: (None,) + DEFS, 2: (None,) + DEFS, LC: (None,) + DEFS + SELF_TAG, LB: (None,) + DEFS + SELF_TAG}
 
 
 class StmtCase(Base):
@@ -384,17 +584,27 @@ class StmtCase(Base):
 
     def valid(self):
         if self.kw in KW_PROTO and (self.ord.get(LB) or self.tag.get(LB)): return False
-        return bool(self.ord.get(LC) or self.tag.get(LC) or self.ord.get(LB) or self.tag.get(LB))
+        if self.ord.get(LC) == "tnext" and (self.kw not in KW_PROTO or self.tag.get(LC)): return False
+        if not (self.ord.get(LC) or self.tag.get(LC) or self.ord.get(LB) or self.tag.get(LB)): return False
+        try:
+            self.walk()
+        except Invalid:
+            return False
+        return True
+
+    def selfref(self):
+        return any(v in SELF_ORD for v in self.ord.values()) or any(v in SELF_TAG for v in self.tag.values())
 
     def events(self):
         kw = self.kw
         ev = [("decl", 0), ("probe", T_FILE)]
+        tn = [("probe", T_COND)] if self.ord.get(LC) == "tnext" else []     # observed through the type of the function
         if kw in ("fnptr0", "proto0"):
-            ev += [("open",), ("decl", LC), ("close",)]          # function prototype scope ends with the declarator
+            ev += [("open",), ("decl", LC)] + tn + [("close",)]  # function prototype scope ends with the declarator
         ev += [("open",), ("decl", 2), ("probe", T_BEFORE)]
         body = [("open",), ("decl", LB), ("probe", T_BODY), ("close",)]
         if kw in ("fnptr", "proto"):
-            ev += [("open",), ("decl", LC), ("close",)]
+            ev += [("open",), ("decl", LC)] + tn + [("close",)]
         elif kw in ("while", "switch"):
             ev += [("open",), ("decl", LC), ("probe", T_COND)] + body + [("close",)]
         elif kw == "if":
@@ -412,37 +622,49 @@ class StmtCase(Base):
             r = self.model_runs(ST_STMT_SITES, (T_BODY,))
             r[0][NSLOT * T_ELSE:NSLOT * T_ELSE + NSLOT] = [UNSET] * NSLOT
             return r
-        return self.model_runs(ST_STMT_SITES, None)
+        r = self.model_runs(ST_STMT_SITES, None)
+        if self.kw in KW_PROTO:             # only the ordinary binding is observable from outside the parameter list
+            r[0][NSLOT * T_COND + 1:NSLOT * T_COND + NSLOT] = [UNSET] * (NSLOT - 1)
+        return r
 
     def exprdecl(self, l, X, i):
         """declarations inside an expression: a type name in sizeof"""
         out = []
         t, o = self.tag.get(l), self.ord.get(l)
         if t == "enum": out.append("sizeof(enum %s { e%d_%d = %d })" % (X, l, i, 60 + l))
+        elif t in SELF_TAG: out.append("sizeof(%s)" % self.selftag(l, X))
         elif t: out.append("sizeof(%s %s { char c[%d]; })" % (t, X, value(l, t)))
-        if o: out.append("sizeof(enum { %s = %d })" % (X, value(l, o)))
+        if o and o != "tnext": out.append("sizeof(%s)" % self.orddecl(l, X, i).rstrip(";"))
         return out
 
     def paramdecl(self, X, i):
         out = []
         t, o = self.tag.get(LC), self.ord.get(LC)
         if t == "enum": out.append("enum %s { e%d_%d = %d } *a" % (X, LC, i, 60 + LC))
+        elif t in SELF_TAG: out.append("%s *a" % self.selftag(LC, X))
         elif t: out.append("%s %s { char c[%d]; } *a" % (t, X, value(LC, t)))
-        if o: out.append("enum { %s = %d } b" % (X, value(LC, o)))
+        if o == "tnext": out.append("short %s, __typeof__(%s) *r" % (X, X))
+        elif o: out.append("%s b" % self.orddecl(LC, X, i).rstrip(";"))
         return ", ".join(out)
+
+    def tnext_probe(self, i):
+        """`short x, __typeof__(x) *r`: the later parameter must see the earlier one (short *), not an enclosing x"""
+        if self.ord.get(LC) != "tnext": return ""
+        fp = {"fnptr": "fp", "fnptr0": "fp%d" % i, "proto": "FN(h%d)" % i, "proto0": "FN(h%d)" % i}[self.kw]
+        return "FN(out)[%d] = _Generic(%s, void (*)(short, short *): 2, void (*)(short, int *): 4, default: 0);" % (NSLOT * T_COND, fp)
 
     def source(self, i):
         X = "x%d" % i
         kw = self.kw
         self.walk()
-        lines = [" ".join(s for s in (self.tagdecl(0, X, i, "static "), self.orddecl(0, X, "static ")) if s)]
+        lines = [" ".join(s for s in (self.tagdecl(0, X, i, "static "), self.orddecl(0, X, i, "static ")) if s)]
         lines.append("static long pf%d[3] = {%s};" % (i, self.pconst(T_FILE, X, i)))
         lines.append("static void g%d(void);" % i)
         if kw == "fnptr0": lines.append("static void (*fp%d)(%s);" % (i, self.paramdecl(X, i)))
         if kw == "proto0": lines.append("void FN(h%d)(%s);" % (i, self.paramdecl(X, i)))
         f = ["void FN(f%d)(short a, void *p) {" % i]
         f.append("int k = 0; %s g%d();" % (" ".join("FN(out)[%d] = pf%d[%d];" % (k, i, k) for k in range(3)), i))
-        f += [self.tagdecl(2, X, i), self.orddecl(2, X)]
+        f += [self.tagdecl(2, X, i), self.orddecl(2, X, i)]
         f.append(self.pstmt(T_BEFORE, X, i))
         def pe(site, last, decl=()):
             ex, _ = self.probes(site, X, i, False) if site in self.bind else ((), "")
@@ -456,6 +678,7 @@ class StmtCase(Base):
         elif kw == "do": f.append("do %s while (%s);" % (body, pe(T_COND, "k++ < 1", dc)))
         elif kw == "for": f.append("for (; %s; %s) %s" % (pe(T_COND, "k < 1", dc), pe(T_ELSE, "k++"), body))
         elif kw == "switch": f.append("switch (%s) case 0: %s" % (pe(T_COND, "0", dc), body))
+        if kw in KW_PROTO: f.append(self.tnext_probe(i))
         f.append(self.pstmt(T_AFTER, X, i))
         f.append("}")
         lines.append(" ".join(x for x in f if x))
@@ -479,9 +702,13 @@ class StmtCase(Base):
 def enum_cases(tier):
     """quick: chain cases with at most 3 declarations (labels with at most 2), stmt cases with at most 3 declarations;
     thorough: chain: at most 5 declarations (labels with at most 4) plus all combinations of the definition kinds
-    (no incomplete declarations) with all labels; stmt: at most 5 declarations"""
+    (no incomplete declarations) with all labels; stmt: at most 5 declarations;
+    point: ordinary declarations only / tags only: at most 3 (thorough: 5 = all) declarations, at least one self-referential;
+    both name spaces: at most 3 (thorough: 4) declarations, a self-referential one in each; stmt cases with self-referential kinds
+    likewise (one name space, or a self-referential declaration in each; at most 3 (thorough: 4) declarations)"""
     out = []
     cmax, lmax, smax = (3, 2, 3) if tier == "quick" else (5, 4, 5)
+    pmax, pmix = (3, 3) if tier == "quick" else (5, 4)
     ords = [(o, sum(1 for v in o if v)) for o in itertools.product(*[ORD[l] for l in range(5)]) if not (o[1] and o[2])]
     tags = []
     for t in itertools.product(*[TAG[l] for l in range(5)]):
@@ -497,13 +724,24 @@ def enum_cases(tier):
                 if lab and d > lmax and not full:
                     continue
                 out.append(Case(o, t, lab))
+    none = (None,) * 5
+    pords = [(o, sum(1 for v in o if v)) for o in itertools.product(*[P_ORD[l] for l in range(5)]) if any(v in SELF_ORD for v in o)]
+    pords = [(o, n) for o, n in pords if n <= pmax and PointCase(o, none, None).valid()]
+    ptags = [(t, sum(1 for v in t if v)) for t in itertools.product(*[P_TAG[l] for l in range(5)]) if any(v in SELF_TAG for v in t)]
+    ptags = [(t, n) for t, n in ptags if n <= pmax and PointCase(none, t, None).valid()]
+    out += [PointCase(o, none, None) for o, _ in pords] + [PointCase(none, t, None) for t, _ in ptags]
+    out += [PointCase(o, t, None) for o, do in pords for t, dt in ptags if do + dt <= pmix]
     ls = (0, 2, LC, LB)
     for kw in KW_STMT + KW_PROTO:
         for o in itertools.product(*[ST_ORD[l] for l in ls]):
             do = sum(1 for v in o if v)
             for t in itertools.product(*[ST_TAG[l] for l in ls]):
-                if do + sum(1 for v in t if v) > smax:
+                dt = sum(1 for v in t if v)
+                if do + dt > smax:
                     continue
+                so, st = any(v in SELF_ORD for v in o), any(v in SELF_TAG for v in t)
+                if (so or st) and (do + dt > pmix or (do and dt and not (so and st))):
+                    continue        # self-referential kinds: one name space, or a self-referential declaration in each
                 c = StmtCase(kw, dict(zip(ls, o)), dict(zip(ls, t)))
                 if c.valid():
                     out.append(c)
